@@ -1,7 +1,7 @@
 """C13 runner: for each case write the generated Python source to a real file in a scratch directory,
 import it, ask the real jsonargparse what parameters it offers for the target class
 (get_signature_parameters and ArgumentParser.add_class_arguments) and really instantiate the class with
-several keyword sets. JSON in (stdin): {"cases": [{"sources": [one or two module texts], "target", "universe", "masks"}]}.
+several keyword sets. JSON in (stdin): {"cases": [{"sources": [one or two module texts], "target", "universe", "masks", "before": [names resolved first]}]}.
 JSON out (last stdout line): list of observations."""
 import importlib
 import inspect
@@ -118,6 +118,15 @@ def main():
             importlib.invalidate_caches()
             mod = importlib.import_module(modname)
             cls = getattr(mod, case["target"])
+            # history: other callables of the same program resolved earlier in this process, in the given order; what is
+            # offered for the target afterwards must not depend on it
+            for name in case.get("before", []):
+                obj = getattr(mod, name, None) or getattr(sys.modules.get(libname), name, None)
+                if obj is not None:
+                    try:
+                        get_signature_parameters(obj, None, null_logger)
+                    except Exception:  # noqa
+                        pass
             obs = {}
             obs["mro"] = [int(c.__name__[1:]) for c in cls.__mro__ if c is not object]
             try:
@@ -134,6 +143,11 @@ def main():
                 ]
             except Exception as ex:  # noqa
                 obs["offered"] = [{"name": "<raised %s>" % type(ex).__name__, "ann": [], "default": "req", "kwonly": False, "otup": False}]
+            if case.get("light"):  # stand-alone answer only (pristine process, no history): no parser, no calls
+                res.append(obs)
+                sys.modules.pop(modname, None)
+                sys.modules.pop(libname, None)
+                continue
             try:
                 get_parameters_from_ast(cls, None, null_logger)
                 obs["ast_raised"] = False
